@@ -1012,10 +1012,10 @@ func TestVerifC31(t *testing.T) {
 	writeAlpha := []int{1, 2, 1023, 1024, 1025, 2049}
 	readAlpha := []int{1, 2, 16, 1023, 1024, 4096}
 	r.Rule("keys: 8 key roles (A<B both orders and defaultLower assignments, equal keys, equal-X/opposite-Y) x 3 AEAD suites x secrets{1,2}; " +
-		"sizes: every write-size sequence of length<=3 over {1,2,1023,1024,1025,2049} (the other direction writes the reverse) x every cyclic read-buffer pattern of length<=3 (quick 2) over {1,2,16,1023,1024,4096} x 3 suites x 2 schedules; " +
+		"sizes: every write-size sequence of length<=3 over {1,2,1023,1024,1025,2049} (the other direction writes the reverse) x every cyclic read-buffer pattern of length<=3 over {1,2,16,1023,1024,4096} x 3 suites x 2 schedules (thorough adds write sequences of length 4 with patterns<=2; quick: |writes|+|pattern|<=5 first suite, <=3 others); " +
 		"config: all roles x secrets{1,2} x suites x write sequences<=2 x 6 single read sizes; " +
 		"conn chunking: uniform {1,2,3,5,16,17,1039,1040,1041,1044} and every single cut (wire<=200 bytes; every cut pair for wire<=64 bytes); " +
-		"tamper: per frame: xor{0x01,0x80} at 10 positions (length hi/lo, 2 padding bytes, ciphertext first/mid/last, tag first/mid/last), swap with next, replay (directly / at end), drop, truncation at 4 points, frame of another session, reflected own frame; " +
+		"tamper: per frame: xor{0x01,0x80,0xff} at 10 positions (length hi/lo, 2 padding bytes, ciphertext first/mid/last, tag first/mid/last), swap with next, replay (directly / at end), drop, truncation at 4 points, frame of another session, reflected own frame; " +
 		"production tier: PacketWriter/PacketReader (bufio 4096) over the SecureConn, packet payload sequences over {0,1,100,984,985,2000,6000}, intact and with every frame mutation. " +
 		"distinct_nontrivial = distinct cases in which at least one frame crosses the conn")
 	r.Assume("plaintext is a fixed pseudo-random filler; keys are three fixed P-256 scalars (A, B, n-A)",
@@ -1035,14 +1035,17 @@ func TestVerifC31(t *testing.T) {
 		}
 	}
 	// ---- sizes (the enumeration the property's why_tests_cant names)
-	wseqs := c31Seqs(writeAlpha, 3)
-	rpats := c31Seqs(readAlpha, r.Pick(2, 3))
+	wseqs := c31Seqs(writeAlpha, r.Pick(3, 4))
+	rpats := c31Seqs(readAlpha, 3)
 	for su := range c31Suites {
 		for _, w := range wseqs {
 			for _, rp := range rpats {
 				for sched := 0; sched < 2; sched++ {
-					if quick && su != 0 && len(w)+len(rp) > 3 {
-						continue // quick: the long sequences only with the first suite
+					if len(w) == 4 && len(rp) > 2 {
+						continue // thorough: length-4 write sequences with read patterns of length <= 2
+					}
+					if quick && (len(w)+len(rp) > 5 || (su != 0 && len(w)+len(rp) > 3)) {
+						continue // quick: |writes|+|reads| <= 5 with the first suite, <= 3 with the others
 					}
 					cases = append(cases, c31Case{Kind: "sizes", Cfg: c31Cfg{su, 0, 2}, Writes: w, Reads: rp, Sched: sched})
 				}
@@ -1100,7 +1103,7 @@ func TestVerifC31(t *testing.T) {
 	}
 	var muts []mut
 	for _, p := range c31FlipPos {
-		for _, x := range []byte{0x01, 0x80} {
+		for _, x := range []byte{0x01, 0x80, 0xff} {
 			muts = append(muts, mut{"flip", p, x})
 		}
 	}
@@ -1118,8 +1121,8 @@ func TestVerifC31(t *testing.T) {
 						if m.m == "foreign" && m.pos == "reflect" && kn == 1 {
 							continue // one shared key: reflection is not excluded by the statement ("separate keys per direction")
 						}
-						for _, rs := range []int{4096, 1024} {
-							if kn == 1 && rs != 4096 {
+						for _, rs := range []int{4096, 1024, 16} {
+							if (kn == 1 && rs != 4096) || (quick && rs == 16) {
 								continue
 							}
 							cases = append(cases, c31Case{Kind: "tamper", Cfg: c31Cfg{su, 0, kn}, Writes: w, Reads: []int{rs}, Mut: m.m, Frame: k, Pos: m.pos, Xor: m.xor})
